@@ -23,7 +23,7 @@ NR = 9
 
 def key_families(rng):
     fams = {}
-    for name in ["be4", "empty0", "prefix", "marker", "ascii", "nonutf8", "long"]:
+    for name in ["be4", "empty0", "prefix", "marker", "ascii", "nonutf8", "long", "len128"]:
         fams[name] = concrete.key_family(name, NR, rng)
     ks = concrete.key_family("be4", NR, rng)
     ks[7] = b"\xff" * 6000          # the last WRITTEN key dominates index.rio
@@ -54,10 +54,10 @@ def run(tier):
     rounds = 8 if thorough else 1
     pairs = [(d, i) for d in range(4) for i in range(4)]
     for rd in range(rounds):
-        nb = 8
+        nb = 9
         for bi in range(nb):
             fam = famnames[(bi + rd) % len(famnames)]
-            vf = concrete.VALUE_FAMILIES[(bi + rd) % len(concrete.VALUE_FAMILIES)]
+            vf = concrete.VALUE_FAMILIES[(bi + rd + 1) % len(concrete.VALUE_FAMILIES)]
             cases = []
             for ti, acc in enumerate(tables):
                 if ti % nb != bi:
